@@ -2,12 +2,12 @@
 
 K1  util.Scope laws (nearest enclosing setter, update, clone, reparent, inlocal) with symbolic
     "set here" flags and symbolic integer values.
-K2  scoping through the whole real pipeline: one option (F_force_wrapper, C_force_wrapper) and one
+K2  scoping through the whole real pipeline: one option (F_force_wrapper, C_force_wrapper, F_string_len_trim) and one
     user format field referenced from the C/Fortran name templates, placed at library / namespace /
     class / block / function level by symbolic booleans; the output must equal, byte for byte, the
-    output of the description in which every leaf declaration carries the value of its nearest
-    enclosing setter directly (so setting on a container == setting on each contained declaration,
-    siblings unaffected, an empty block transparent).
+    output of the description without blocks in which every leaf declaration carries the value of its
+    nearest enclosing setter directly (so setting on a container == setting on each contained
+    declaration, siblings unaffected, a block transparent for everything but the values it sets).
 K3  inline attributes == attrs/fattrs: symbolic subsets of attributes on fixed declaration shapes,
     both spellings through the whole pipeline (same output or same diagnostic).
 K4  --option / --language == the YAML fields, and create_wrapper == the command line, through the
@@ -188,6 +188,11 @@ options:
 format:
   tag: t0_
 declarations:
+- block: True
+  declarations:
+  - decl: namespace early
+    declarations:
+    - decl: int earlyfunc(int n)
 - decl: namespace ns
   declarations:
   - decl: class Cls
@@ -196,7 +201,7 @@ declarations:
     - block: True
       declarations:
       - decl: void setName(const std::string &name)
-      - decl: int area(int scale = 1)
+      - decl: int area(const std::string &unit, int scale = 1)
     - decl: int other()
   - decl: int nsfunc(int n)
 - decl: int libfunc(int n)
@@ -204,30 +209,49 @@ declarations:
   declarations:
   - decl: int inblock(int n)
 """
-LEVELS = ["lib", "ns", "cls", "blk", "fn"]
-TAGS = {"lib": "tL_", "ns": "tN_", "cls": "tC_", "blk": "tB_", "fn": "tF_"}
+ENUMERATED_OPTIONS = ("F_string_len_trim",)
+LEVELS = ["lib", "ns", "cls", "blk", "fn", "fn2"]
+TAGS = {"lib": "tL_", "ns": "tN_", "cls": "tC_", "blk": "tB_", "fn": "tF_", "fn2": "tG_"}
 
 
 def scope_nodes(d):
-    ns = d["declarations"][0]
+    ns = d["declarations"][1]
     cls = ns["declarations"][0]
     blk = cls["declarations"][1]
-    fn = blk["declarations"][0]
-    return {"lib": d, "ns": ns, "cls": cls, "blk": blk, "fn": fn}
+    fn = blk["declarations"][0]        # setName: has a bufferify clone
+    fn2 = blk["declarations"][1]       # area: has default-argument clones
+    return {"lib": d, "ns": ns, "cls": cls, "blk": blk, "fn": fn, "fn2": fn2}
 
 
 def leaves(d):
     """(leaf decl dict, chain of level names enclosing it, outermost first)"""
     n = scope_nodes(d)
     ns, cls, blk = n["ns"], n["cls"], n["blk"]
-    out = [(cls["declarations"][0], ["lib", "ns", "cls"]),
+    out = [(d["declarations"][0]["declarations"][0]["declarations"][0], ["lib"]),
+           (cls["declarations"][0], ["lib", "ns", "cls"]),
            (blk["declarations"][0], ["lib", "ns", "cls", "blk", "fn"]),
-           (blk["declarations"][1], ["lib", "ns", "cls", "blk"]),
+           (blk["declarations"][1], ["lib", "ns", "cls", "blk", "fn2"]),
            (cls["declarations"][2], ["lib", "ns", "cls"]),
            (ns["declarations"][1], ["lib", "ns"]),
-           (d["declarations"][1], ["lib"]),
-           (d["declarations"][2]["declarations"][0], ["lib"])]
+           (d["declarations"][2], ["lib"]),
+           (d["declarations"][3]["declarations"][0], ["lib"])]
     return out
+
+
+def flatten_blocks(node):
+    """The description without blocks: a block's declarations take its place in the parent."""
+    decls = node.get("declarations")
+    if not decls:
+        return
+    flat = []
+    for d in decls:
+        if d.get("block"):
+            flatten_blocks(d)
+            flat.extend(d.get("declarations", []))
+        else:
+            flatten_blocks(d)
+            flat.append(d)
+    node["declarations"] = flat
 
 
 class ScopePipeHarness(object):
@@ -250,7 +274,7 @@ class ScopePipeHarness(object):
                 if self.what == "tag":
                     nodes[lv].setdefault("format", {})["tag"] = TAGS[lv]
                 else:
-                    nodes[lv].setdefault("options", {})[self.what] = SymBool(e, self.zv[lv])
+                    nodes[lv].setdefault("options", {})[self.what] = self.value(e, lv)
         # description B: each leaf declaration carries the value of its nearest enclosing setter
         for (leafA, chain), (leafB, _) in zip(leaves(dA), leaves(dB)):
             near = None
@@ -261,10 +285,20 @@ class ScopePipeHarness(object):
                 if self.what == "tag":
                     leafB.setdefault("format", {})["tag"] = TAGS[near]
                 else:
-                    leafB.setdefault("options", {})[self.what] = SymBool(e, self.zv[near])
+                    leafB.setdefault("options", {})[self.what] = self.value(e, near)
+        flatten_blocks(dB)
         rA = pipeline.run(dA, deep=False)
         rB = pipeline.run(dB, deep=False)
         return rA, rB
+
+    def value(self, e, lv):
+        if self.what in ENUMERATED_OPTIONS:
+            # Shroud tests this option with `is False`: a proxy cannot stand for it, so the engine picks
+            # the concrete value (one path per value, still decided by the solver's enumeration)
+            if lv not in self.val:
+                self.val[lv] = bool(e.branch(self.zv[lv]))
+            return self.val[lv]
+        return SymBool(e, self.zv[lv])
 
     def witness(self, m, what):
         return {"kernel": "scoping", "field": self.what, "set": {lv: bool(self.set.get(lv)) for lv in LEVELS},
@@ -321,6 +355,7 @@ def confirm_scoping(w):
                 leafB.setdefault("format", {})["tag"] = TAGS[near]
             else:
                 leafB.setdefault("options", {})[w["field"]] = w["value"][near]
+    flatten_blocks(dB)
     try:
         return compare_runs(pipeline.run(dA, deep=False), pipeline.run(dB, deep=False))
     except Exception as ex:
@@ -632,7 +667,7 @@ def main():
         rep.inconc("identity test on a value this harness makes symbolic: " + ln)
     specs = [("harness.C14", "make_scope", {})]
     labels = ["util.Scope laws"]
-    for what in ("tag", "F_force_wrapper", "C_force_wrapper"):
+    for what in ("tag", "F_force_wrapper", "C_force_wrapper", "F_string_len_trim"):
         specs.append(("harness.C14", "make_scope_pipe", dict(what=what)))
         labels.append("pipeline scoping of %s" % what)
     for i in range(len(ATTR_SHAPES)):
@@ -692,7 +727,7 @@ def main():
                               "Library/Namespace/Class/Block/FunctionNode.__init__ and default_format; FunctionNode.clone",
                               "FunctionNode.__init__ attrs/fattrs merge; declast.Parser.attribute; generate.VerifyAttrs",
                               "shroud.main.main_with_args (--option, --language), create_wrapper"],
-        "bounds": {"scope_chain_depth": 4, "pipeline_levels": LEVELS, "scoped_fields": ["format field tag (referenced from C_name_template)", "F_force_wrapper", "C_force_wrapper"],
+        "bounds": {"scope_chain_depth": 4, "pipeline_levels": LEVELS, "scoped_fields": ["format field tag (referenced from C_name_template)", "F_force_wrapper", "C_force_wrapper", "F_string_len_trim"],
                    "attribute_shapes": [s["bare"] for s in ATTR_SHAPES], "command_line_options": [o[0] for o in CMD_OPTIONS]},
         "solver": {"name": "z3 " + z3.get_version_string(), "queries": total.stats.queries, "solver_s": round(total.stats.solver_s, 2)},
         "reachability_twin_ok": twin_ok,
